@@ -210,7 +210,7 @@ def vm_scenarios():
     sc["v_dual_prot"] = (["std"], [D(16384, 7, 0), PROT(0, 1, 0, 4096, view="rx"), PROT(0, 1, 4096, 4096, view="rw"), RD(0)])
     sc["v_huge"] = (["std", "hugesim"], [{"op": "lps"}, A(LP, 7, 0, huge=True), A(LP + 4096, 3, 1, huge=True), A(4096, 3, 2, huge=True), REL(0), REL(1), REL(2)])
     sc["v_args"] = (["std"], [A(0, 3, 0), D(0, 7, 1), A(100, 3, 2), REL(2), A(4096, 3, 3), REL(3, bogus="unaligned"), REL(3, bogus="null"), REL(3),
-                              A(12288, 3, 4, sh=True), REL(4)])
+                              A(12288, 3, 4, sh=True), REL(4), A(8192, 3, 5, maxacc=7), PROT(5, 5), REL(5)])
     sc["v_jit"] = (["std"], [A(8192, 7, 0), {"op": "scope", "s": 0, "policy": 0}, {"op": "unscope"}, {"op": "scope", "s": 0, "policy": 2}, {"op": "unscope"},
                              {"op": "jit", "acc": "RW"}, {"op": "jit", "acc": "RX"}, {"op": "flush", "s": 0}, REL(0)])
     return sc
